@@ -3,8 +3,8 @@ PROPERTY = "C17"
 LEVEL = "model_checking"
 FUNCTIONS = ["batchie.sampling.sample (MCMC and VI branches)", "batchie.core.ThetaHolder.add_theta / is_complete"]
 BOUNDS = {
-    "quick": "full runs: every b<=3, t in 1..3, n in 1..3 (solver-enumerated); one-iteration lemma: arbitrary b>=0, t>=1, n>=1 and iteration index (unbounded integers); generator selection: arbitrary seed, n_chains, chain_index (unbounded)",
-    "thorough": "full runs: b<=6, t<=6, n<=6; lemmas unbounded",
+    "quick": "full runs: every b<=4, t in 1..4, n in 1..4 (solver-enumerated); one-iteration lemma: arbitrary b>=0, t>=1, n>=1 and iteration index (unbounded integers); generator selection: arbitrary seed, n_chains, chain_index (unbounded)",
+    "thorough": "full runs: b<=8, t<=8, n<=8; lemmas unbounded",
 }
 ASSUMPTIONS = [
     "numpy SeedSequence(seed).spawn(n)[i] is modelled as an injective constructor child(seed, i); default_rng(x) as a generator determined by x",
@@ -17,7 +17,7 @@ BUDGET_S = {"quick": 120, "thorough": 900}
 
 
 def configs(tier, seed):
-    m = 3 if tier == "quick" else 6
+    m = 4 if tier == "quick" else 8
     return [dict(name="schedule", h="schedule", bmax=m, tmax=m, nmax=m),
             dict(name="iteration-lemma", h="lemma"),
             dict(name="stream", h="stream"),
@@ -149,9 +149,15 @@ def h_stream(ctx, cfg):
         sampling.trange = lambda count, disable=True: iter(())
         try:
             sampling.sample(m, _OpenHolder(1), seed=seed, n_chains=nc, chain_index=ci, n_burnin=0, thin=1)
+            first = m.rng_.token
+            # an identical triple later in the same process must select the same child again
+            sampling.sample(m, _OpenHolder(1), seed=seed, n_chains=nc, chain_index=ci, n_burnin=0, thin=1)
         finally:
             sampling.trange = saved
         tok = m.rng_.token
+        ctx.prove(first is not None and tok is not None and len(first) == len(tok) == 3 and first[0] == tok[0]
+                  and ctx.is_true(ctx.And(first[1] == tok[1], first[2] == tok[2])),
+                  "identical (seed, n_chains, chain_index) later in the same process: identical generator", key="stream depends on call history")
         ctx.prove(m.rng_.stream == "seeded" and tok is not None and tok[0] == "child",
                   "generator is default_rng of a spawned child of SeedSequence(seed)")
         if tok is not None and tok[0] == "child":
@@ -161,8 +167,12 @@ def h_stream(ctx, cfg):
     import numpy
     nc, ci = min(nc, 64), ci
     sampling.sample(m, core.ThetaHolder(n_thetas=1), seed=seed, n_chains=nc, chain_index=ci, n_burnin=0, thin=1)
+    st1 = m.rng_.bit_generator.state
+    sampling.sample(m, core.ThetaHolder(n_thetas=1), seed=seed, n_chains=nc, chain_index=ci, n_burnin=0, thin=1)
+    ctx.prove(m.rng_.bit_generator.state == st1, "identical (seed, n_chains, chain_index) later in the same process: identical generator",
+              key="stream depends on call history")
     want = numpy.random.default_rng(numpy.random.SeedSequence(seed).spawn(nc)[ci])
-    same = m.rng_.bit_generator.state == want.bit_generator.state
+    same = st1 == want.bit_generator.state
     ctx.prove(same, "child selected by the chain index (distinct chains: distinct children)")
     for other in range(min(nc, 4)):
         if other != ci:
